@@ -78,6 +78,8 @@ def features(core, kind, det):
         f.append("tailstrict-dropped")
     if "|||" in core:
         f.append("crlf-text-block" if "\r\n" in core else "text-block")
+    if not f and kind == "not-parsable" and isinstance(det, dict) and re.search(r"^\s*for [^\n]*[A-Za-z0-9_](?:if|for) ", det.get("output", ""), re.M):
+        f.append("object-comprehension-specs-glued")
     if re.search(r"\d\s*\.\s*[A-Za-z_]", core) and not f:
         f.append("field-access-on-number-literal")
     return "+".join(f) or "no-comment"
